@@ -29,7 +29,7 @@ type txnShape struct {
 
 func runC18(c *core.Ctx) {
 	runFixtures(c, "locks", "drop")
-	c.Explain("Structural clauses of C18 decided from source for every Go-level keyvalue.Transaction implementation found by type (mem.transaction, keyvalue.unsafeSerialTransaction): (R18.1) on every path through Get/GetHandler/Set/SetHandler exactly one result is recorded and its Op is the id returned; (R18.2) every path allocates exactly one id, including the aborted path; (R18.3) every store access in an op method is dominated by the not-aborted edge of an abort check; (R18.4) the handler's error flows into the recorded result's Err; (R18.5) a transaction type whose constructor returns holding a mutex releases it on every path of Commit and of Abort, and each release is idempotent (sync.Once) so Abort followed by Commit cannot unlock twice; (R18.6) in package keyvalue every successfully begun transaction is followed by Commit or Abort on every path (paths that fail only because a callee's ValidPath gate rejected the name are pruned, assumption A7); (R18.7) Commit returns the recorded results in id order (append order, or index-by-id), and with append order every operation reserves its slot before its handler runs (a handler may issue further operations); (R18.8) the in-memory store's transaction constructor holds the store mutex at every successful return (a mode-dependent early return without the lock lets that transaction observe another's partial effects); (R18.9) a transaction's cancel function is invoked only by its Abort and Commit methods — an operation that aborts on its own turns one store error into 'context canceled' for the whole transaction and loses every result. NOT claimed: isolation between concurrent transactions beyond R18.8, that a Get reflects earlier Sets (values), liveness.")
+	c.Explain("Structural clauses of C18 decided from source for every Go-level keyvalue.Transaction implementation found by type (mem.transaction, keyvalue.unsafeSerialTransaction): (R18.1) on every path through Get/GetHandler/Set/SetHandler exactly one result is recorded and its Op is the id returned; (R18.2) every path allocates exactly one id, including the aborted path; (R18.3) every store access in an op method is dominated by the not-aborted edge of an abort check; (R18.4) the handler's error flows into the recorded result's Err; (R18.5) a transaction type whose constructor returns holding a mutex releases it on every path of Commit and of Abort, and each release is idempotent (sync.Once) so Abort followed by Commit cannot unlock twice; (R18.6) in package keyvalue every successfully begun transaction is followed by Commit or Abort on every path (paths that fail only because a callee's ValidPath gate rejected the name are pruned, assumption A7); (R18.7) Commit returns the recorded results in id order (append order, or index-by-id), and with append order every operation reserves its slot before its handler runs (a handler may issue further operations); (R18.8) the in-memory store's transaction constructor holds the store mutex at every successful return (a mode-dependent early return without the lock lets that transaction observe another's partial effects); (R18.9) a transaction's cancel function is invoked only by its Abort and Commit methods — an operation that aborts on its own turns one store error into 'context canceled' for the whole transaction and loses every result. (R18.10) = R15.13: records of the in-memory store are immutable once stored. NOT claimed: isolation between concurrent transactions beyond R18.8, that a Get reflects earlier Sets (values), liveness.")
 	c.Assume("A6: partial correctness — 'on every path' means every path that returns",
 		"A7: inside keyvalue.FS a name that reaches setFileTxn was validated by the caller chain (C04/R04.1 checks the gates); paths on which only that validation fails are not required to end the transaction")
 	c.RuleDoc("R18.1", "exactly one result recorded per op call on every path; recorded Op == returned id")
@@ -37,6 +37,7 @@ func runC18(c *core.Ctx) {
 	c.RuleDoc("R18.3", "store access dominated by not-aborted edge")
 	c.RuleDoc("R18.4", "handler error flows into recorded OpResult.Err")
 	c.RuleDoc("R18.8", "a constructor that returns transactions holding the store mutex does so on every successful return")
+	c.RuleDoc("R18.10", "records of the in-memory store are immutable once stored: a Get result does not change with a later Set (= R15.13)")
 	c.RuleDoc("R18.9", "a transaction's cancel function is invoked only by Abort and Commit")
 	c.RuleDoc("R18.5", "store mutex released on all paths of Commit/Abort, idempotently")
 	c.RuleDoc("R18.6", "begin/end pairing of transactions in package keyvalue")
@@ -74,6 +75,9 @@ func runC18(c *core.Ctx) {
 		}
 		if p.Target == load.Linux {
 			r18Pairing(c, p, txnI)
+			// R18.10 (= R15.13): records of the in-memory store are immutable once stored — a Set that updates the stored object in
+			// place changes what an earlier Get of the same transaction (and results already returned) say
+			c.WithAlias(map[string]string{"R15.13": "R18.10"}, func() { r15RecordsImmutable(c, p) })
 		}
 	}
 	c.Floor("R18.1", 8)
@@ -83,6 +87,7 @@ func runC18(c *core.Ctx) {
 	c.Floor("R18.5", 2)
 	c.Floor("R18.8", 1)
 	c.Floor("R18.9", 4)
+	c.Floor("R18.10", 1)
 	c.Floor("R18.6", 4)
 	c.Floor("R18.7", 2)
 }
